@@ -1233,9 +1233,7 @@ func init() {
 				case 1:
 					x.Notes = []string{}
 				}
-				if prop == "C12" && x.Notes != nil && len(x.Notes) == 0 {
-					return // what JSON does with an empty list under omitempty is encoding/json's convention, not claimed
-				}
+
 				encStats.StateStr("odd-fields" + a.String() + x.Describe())
 				encStats.Trans.Add(2)
 				var yi psatoken.IClaims
@@ -1309,19 +1307,32 @@ func init() {
 	}
 	// C12: registered profiles whose NAME contains characters the JSON encoder escapes
 	Scenarios["c12.escaped-profile-name"] = func() (choice.Scenario, func() any) {
-		names := []string{"http://example.com/psa?variant=a&rev=2", "http://example.com/psa/it's", "http://example.com/psa?q=<1>"}
+		names := []string{"http://example.com/psa?variant=a&rev=2", "http://example.com/psa/it's", "http://example.com/psa?q=<1>", "ACME_R&D_<PROFILE>_1"}
 		return func(c *choice.Ctx) {
 			name := names[c.Choose("name", len(names))]
 			if _, _, ok := psatoken.VerifRegistryEntry(name); !ok {
-				if err := psatoken.RegisterProfile(ExtProfile{name, 2}); err != nil {
+				base := 2
+				if !strings.HasPrefix(name, "http") {
+					base = 1 // a profile-1 based profile: its profile claim is a plain string
+				}
+				if err := psatoken.RegisterProfile(ExtProfile{name, base}); err != nil {
 					return // not a name the register takes: nothing to check
 				}
 			}
-			a := genValidOpt(c, kindP2, false, true)
+			kind := kindP2
+			if !strings.HasPrefix(name, "http") {
+				kind = kindP1
+			}
+			a := genValidOpt(c, kind, false, true)
 			a.Canon, a.Profile = name, sp(name)
+			if a.NoMeas != nil {
+				return // (how a derived profile-1 type writes an empty list is not what this scenario is about)
+			}
 			x, err := buildBySetters(a)
 			if err != nil {
-				c.Failf("C12:escaped-name:build", "%v", err)
+				if err != errNotRepresentable {
+					c.Failf("C12:escaped-name:build", "%v", err)
+				}
 				return
 			}
 			if x.Validate() != nil {
